@@ -16,7 +16,7 @@ MAP = {
     "C06_m1": [("C06", "blk.")], "C06_m2": [("C06", "blk.ima_aiff.ch2")],
     "C07_m1": [("C18", "peak.float32.int.ch2"), ("C07", "peak.")], "C07_m2": [("C07", None)],
     "C08_m1": [("C08", None)], "C08_m2": [("C08", None)],
-    "C09_m1": [("C09", "wrap.seek.ch1"), ("C06", "wrap.seek.ch1")], "C09_m2": [("C09", None), ("C17", "cmd.SFC_SET_BROADCAST")],
+    "C09_m1": [("C09", "wrap.seek.ch1"), ("C06", "wrap.seek.ch1")], "C09_m2": [("C09", "metarefuse"), ("C17", "metarefuse")],
     "C10_m1": [("C10", "mat4cpu"), ("C04", "mat4cpu.pcm16.ch1.n1")], "C10_m2": [("C10", "tables.index")],
     "C11_m1": [("C11", "wrap.writef_float.ch2")], "C11_m2": [("C11", "rt.upd.wav.pcm16.ch1.n3.sr44100.wptr0")],
     "C12_m1": [("C12", "meta.cues.wav.pcm16.ch1.n1")], "C12_m2": [("C12", "wrap.write_raw.ch1")],
